@@ -327,6 +327,53 @@ func tickerOrder(f *ast.File) []string {
 	return order
 }
 
+
+// poolFacts: the constants of the ban bookkeeping in listenServer.getConn (core/server/server_c.go) and the
+// comparison that decides whether Pool.Get dials (core/redis_pool.go). Unknown shapes yield 0 / "?" / false, which
+// makes the theorem that pins them (`pool_constants_are_modelled`) fail - not the whole translation.
+func poolFacts(serverC, pool *ast.File) (capTest, capSet int, doubles bool, dialWhile string) {
+	dialWhile = "?"
+	if fd := findFunc(serverC, "getConn"); fd != nil {
+		ast.Inspect(fd.Body, func(n ast.Node) bool {
+			switch x := n.(type) {
+			case *ast.IfStmt:
+				if be, ok := x.Cond.(*ast.BinaryExpr); ok && isSel(be.X, "LiftBanOrder") && be.Op == token.GEQ {
+					if lit, ok := be.Y.(*ast.BasicLit); ok {
+						capTest, _ = strconv.Atoi(lit.Value)
+					}
+					for _, st := range x.Body.List {
+						if as, ok := st.(*ast.AssignStmt); ok && len(as.Lhs) == 1 && isSel(as.Lhs[0], "LiftBanOrder") {
+							if lit, ok := as.Rhs[0].(*ast.BasicLit); ok {
+								capSet, _ = strconv.Atoi(lit.Value)
+							}
+						}
+					}
+				}
+			case *ast.BinaryExpr:
+				if x.Op == token.SHL && isSel(x.Y, "LiftBanOrder") {
+					if lit, ok := x.X.(*ast.BasicLit); ok && lit.Value == "1" {
+						doubles = true
+					}
+				}
+			}
+			return true
+		})
+	}
+	if fd := findFunc(pool, "Get"); fd != nil {
+		for _, st := range fd.Body.List {
+			is, ok := st.(*ast.IfStmt)
+			if !ok {
+				continue
+			}
+			if be, ok := is.Cond.(*ast.BinaryExpr); ok && strings.Contains(types.ExprString(be.X), "active.count") && isSel(be.Y, "maxActive") {
+				dialWhile = be.Op.String()
+				break
+			}
+		}
+	}
+	return
+}
+
 // publishOrder: the order of the writes of updateClusterNodes once isChanged said yes
 func publishOrder(f *ast.File) []string {
 	fd := findFunc(f, "updateClusterNodes")
@@ -695,6 +742,12 @@ func main() {
 	fmt.Fprintf(&w, "def tickerOrder : List String := %s\n", leanStrList(tickerOrder(parseFile(filepath.Join(repo, "core/eventloop.go")))))
 	w.WriteString("-- order of the writes of updateClusterNodes once a change was detected\n")
 	fmt.Fprintf(&w, "def publishOrder : List String := %s\n\n", leanStrList(publishOrder(parseFile(filepath.Join(repo, "core/cluster.go")))))
+	// ---- pool / ban bookkeeping constants ----
+	capTest, capSet, doubles, dialWhile := poolFacts(parseFile(filepath.Join(repo, "core/server/server_c.go")), parseFile(filepath.Join(repo, "core/redis_pool.go")))
+	w.WriteString("-- getConn: `if pool.LiftBanOrder >= banOrderCap { pool.LiftBanOrder = banOrderCapAssigned }`, ban length `1<<LiftBanOrder` retry periods\n")
+	fmt.Fprintf(&w, "def banOrderCap : Nat := %d\ndef banOrderCapAssigned : Nat := %d\ndef banDoubles : Bool := %v\n", capTest, capSet, doubles)
+	w.WriteString("-- Pool.Get dials while `active.count <poolDialWhile> maxActive`\n")
+	fmt.Fprintf(&w, "def poolDialWhile : String := %q\n\n", dialWhile)
 	w.WriteString("end RcVerif.Gen\n")
 
 	// write only if changed (keeps lake's incremental build quiet)
